@@ -120,6 +120,26 @@ def lookup : List (List Named) → Nat → Option Nat
     | some t => some t
     | none   => if Generated.App.lookupWalksParents then lookup parents name else none
 
+/-! ### `GetComponent[T]`: lookup by implemented interface, same walk -/
+
+structure Typed where
+  types : List Nat   -- the interfaces this component implements
+  tag   : Nat
+deriving Repr, DecidableEq
+
+def findTypeIn (cs : List Typed) (t : Nat) : Option Nat :=
+  match cs.find? (fun c => c.types.contains t) with
+  | some c => some c.tag
+  | none   => none
+
+/-- `GetComponent[T](app)`: first component, child container first, whose dynamic type implements `T` -/
+def lookupT : List (List Typed) → Nat → Option Nat
+  | [], _ => none
+  | cs :: parents, t =>
+    match findTypeIn cs t with
+    | some g => some g
+    | none   => if Generated.App.getComponentWalksParents then lookupT parents t else none
+
 /-- `Register`: panics (`none`) on a duplicate name inside one container -/
 def register (cs : List Named) (c : Named) : Option (List Named) :=
   if cs.any (·.name = c.name) then none else some (cs ++ [c])
